@@ -15,6 +15,13 @@ for n in names:
     assert not st.strip(), "/repo is dirty: %s" % st
     r = subprocess.run(["git", "-C", "/repo", "apply", os.path.join(d, "patch.diff")], stdout=subprocess.PIPE, stderr=subprocess.STDOUT, text=True)
     if r.returncode != 0:
+        # the tree moved on since the seed was written (later fix: commits): fall back to a 3-way merge of the patch
+        r = subprocess.run(["git", "-C", "/repo", "apply", "--3way", os.path.join(d, "patch.diff")], stdout=subprocess.PIPE, stderr=subprocess.STDOUT, text=True)
+        subprocess.run(["git", "-C", "/repo", "reset", "-q"])
+        if "with conflicts" in r.stdout:
+            subprocess.run(["git", "-C", "/repo", "checkout", "--", "."])
+            r.returncode = 1
+    if r.returncode != 0:
         rows.append((n, prop, "patch does not apply to the current tree: %s" % r.stdout.strip()[:100], "", ""))
         print(n, "patch does not apply")
         continue
